@@ -4,6 +4,7 @@ use std::time::Instant;
 //@@ include prelude/hash_keys.rs
 //@@ include prelude/time.rs
 //@@ include prelude/vecdeque.rs
+//@@ include prelude/cmp.rs
 verus! {
 broadcast use {group_byte_keys, group_vecdeque, vstd::std_specs::hash::group_hash_axioms};
 pub type DatabaseIndex = usize;
@@ -65,6 +66,17 @@ impl BlockingRegistry {
 fn notify_served_arm(registry: &mut BlockingRegistry, c: BlockedClient) -> (r: BlockedClient)
     requires reg_wf(*old(registry)),
     ensures reg_wf(*final(registry)), r == c, !registered_anywhere(*final(registry), c.conn_id),
+//@@ body
+//@@ end
+
+// one step of the timeout sweep (get_expired_clients, inner removal loop): taking the timed-out waiter at index i out of a
+// key's queue. C13: "waiters are served in the order they blocked" — removing one waiter must not reorder the others
+// (`VecDeque::remove` keeps the order; an O(1) `swap_remove_back` would move the LAST waiter into the hole).
+//@@ unit expired_remove_step loopbody src/network/blocking.rs BlockingRegistry::get_expired_clients "for &i in expired_in_key.iter().rev()"
+fn expired_remove_step(clients: &mut VecDeque<BlockedClient>, i: usize, expired: &mut Vec<u64>)
+    ensures
+        i < old(clients)@.len() ==> final(clients)@ == old(clients)@.remove(i as int) && final(expired)@ == old(expired)@.push(old(clients)@[i as int].conn_id),
+        i >= old(clients)@.len() ==> final(clients)@ == old(clients)@ && final(expired)@ == old(expired)@,
 //@@ body
 //@@ end
 
